@@ -33,7 +33,11 @@ func (node *tagForNode) Execute(ctx *ExecutionContext, writer TemplateWriter) (f
 
 	// Is it a loop in a loop?
 	if parentloop != nil {
-		loopInfo.Parentloop = parentloop.(*tagForLoopInformation)
+		// "forloop" may have been rebound by the template ({% set forloop = ... %},
+		// a macro named forloop): only a loop record is a parent loop
+		if pl, ok := parentloop.(*tagForLoopInformation); ok {
+			loopInfo.Parentloop = pl
+		}
 	}
 
 	// Register loopInfo in public context
